@@ -275,6 +275,12 @@ class Run(object):
             if op.get('raw'):
                 # uncompiled strings: pexpect compiles them itself (DOTALL, + IGNORECASE when ignorecase is set)
                 pl = [(EOF if p['t'] == 'EOF' else TIMEOUT if p['t'] == 'TIMEOUT' else self.conv(p['p'])) for p in op['pats']]
+                prev = getattr(self, '_prev_raw_list', None)
+                if op.get('same_list') and prev is not None:
+                    # the caller keeps ONE list object and edits it in place between calls
+                    prev[:] = pl
+                    pl = prev
+                self._prev_raw_list = pl
             if len(pl) == 1 and op.get('single'):
                 pl = pl[0]
             return child.expect(pl, timeout=to, searchwindowsize=sws)
